@@ -16,3 +16,5 @@ PROP = {
  'assumptions': ['optional/many continue from the state before the failed attempt (findings F8, fixed)',
                  'negative numbers are flags to next_arg (documented behaviour of is_flag), so "-1" is never a positional'],
 }
+
+PROP['rule'] += ' Shape family (session 3): additionally unit as left/right part of sum and product and under optional, and every leaf kind (switch, flag, option, unit_switch) in every composition position it had not been seen in (20 more shapes).'
